@@ -410,3 +410,8 @@ fn default_local_stratum() -> u8 {
 fn default_warn_on_jump() -> bool {
     true
 }
+
+// verification hook (guard: cfg(kani)); contract harnesses live outside the repository
+#[cfg(kani)]
+#[path = "/verif/kani/ntp_proto/config.rs"]
+mod verif;
